@@ -28,13 +28,15 @@ class Net:
         self.block: Callable | None = None  # (cond, timeout_ms) -> None; set by threaded harnesses
         self.bound: dict[str, "Socket"] = {}
         self.on_send: Callable | None = None
+        self.nsock = 0
         outer = self
 
         class Socket:
             def __init__(self, typ):
                 self.typ, self.addr, self.closed = typ, None, False
                 self.pending_reply = None
-                self.tag = None
+                outer.nsock += 1
+                self.tag = outer.nsock  # frames of one socket arrive in order; different sockets are unordered
 
             def set(self, *a, **k):
                 pass
@@ -129,6 +131,15 @@ class Net:
                 return rd()
 
         self.Socket, self.Context, self.Poller = Socket, Context, Poller
+
+    def deliverable(self) -> list[int]:
+        """indices into `flight` of the frames that may arrive next: the oldest frame of every socket"""
+        seen, out = set(), []
+        for i, (_, _, tag) in enumerate(self.flight):
+            if tag not in seen:
+                seen.add(tag)
+                out.append(i)
+        return out
 
     # ---- explorer-side operations on the in-flight stage
     def deliver(self, i: int = 0) -> None:
